@@ -291,18 +291,23 @@ def base_period(spec) -> int:
 
 def wrap_op(rnd: random.Random, zc: ZoneCtx, k: str, base, narrow: bool = False):
     per = base_period(base)
+    # C14 chains: in a third of the cases the shifted trigger itself carries a (mild) filter
+    flt = None
+    if narrow and rnd.random() < 0.35:
+        flt = rnd.choice([('not', ('dow', [rnd.randint(1, 7)])), ('dow', sorted(rnd.sample(range(1, 8), 5))),
+                          ('not', ('dom', [rnd.randint(1, 28)]))])
     if k == 'offset':
         if narrow:
             off = rnd.choice([-1, 1]) * rnd.choice([per // 7, per // 3, per // 2 - 1, NS_S, 17 * NS_MIN])
         else:
             off = rnd.choice([-1, 1]) * rnd.choice([NS_S, 10 * NS_MIN, 90 * NS_MIN, 5 * NS_HOUR, 30 * NS_HOUR, 1])
-        return ('offset', make_exact(off), None, base)
+        return ('offset', make_exact(off), flt, base)
     if k in ('earliest', 'latest'):
         return (k, gen_tod(rnd, zc), rnd.choice(SKIPPED), rnd.choice(REPEATED), None, base)
     width = rnd.choice([per // 10, per // 4, per // 2 - 2, NS_S]) if narrow else rnd.choice([NS_S, 10 * NS_MIN, 2 * NS_HOUR])
     width = max(width, 1000)
     lo = rnd.choice([0, 0, -width // 2, -width, width // 3, -1])
-    return ('jitter', make_exact(lo), make_exact(lo + width), None, base)
+    return ('jitter', make_exact(lo), make_exact(lo + width), flt, base)
 
 
 def make_sweep_case(zone: str, seed: int) -> ProdCase:
@@ -329,6 +334,40 @@ def make_sweep_case(zone: str, seed: int) -> ProdCase:
                     pid += 1
                     case.specs[pid] = ('time', tod % NS_DAY, sk, rp, None)
                     for ref in (t - 30 * 3600, t - 3 * 3600, t - 1, t, t + abs(b - a) // 2, t + 3 * 3600):
+                        case.meta['probes'].append((pid, ref * NS_S))
+    return case
+
+
+def make_bound_sweep_case(zone: str, seed: int) -> ProdCase:
+    """C13 sweep: one zone, one forward and one backward clock change, an earliest / latest bound whose wall clock time
+    lies at the start / inside / at the end of the affected interval, every policy of the matching direction, a dense
+    underlying trigger, reference instants around the change"""
+    rnd = random.Random(seed)
+    zc = ZoneCtx(zone)
+    case = ProdCase(zone, 0)
+    case.meta = {'refs': [], 'steps': 0, 'probes': [], 'budget_s': 30.0}
+    fwd = [x for x in zc.trans if x[2] > x[1]]
+    back = [x for x in zc.trans if x[2] < x[1]]
+    if not fwd and not back:
+        case.specs[1] = ('earliest', 12 * NS_HOUR, 'after', 'earlier', None, ('interval', 1_700_000_000 * NS_S, NS_HOUR, None))
+        case.meta['probes'] = [(1, 1_700_000_000 * NS_S)]
+        return case
+    pid = 0
+    for group in (fwd, back):
+        if not group:
+            continue
+        t, a, b = rnd.choice(group)
+        lo, hi = (t + a, t + b) if b > a else (t + b, t + a)
+        step = rnd.choice([5, 10, 15]) * NS_MIN
+        base = ('interval', (t - 2 * 86400) * NS_S + rnd.choice([0, 1, 7]) * NS_MIN, step, None)
+        for x in ((lo + hi) // 2, lo, lo + (hi - lo) // 3, hi - 1):
+            tod = (x % 86400) * NS_S
+            for pol in (SKIPPED if b > a else REPEATED):
+                sk, rp = (pol, rnd.choice(REPEATED)) if b > a else (rnd.choice(SKIPPED), pol)
+                for k in ('earliest', 'latest'):
+                    pid += 1
+                    case.specs[pid] = (k, tod, sk, rp, None, base)
+                    for ref in (t - 3 * 3600, t - abs(b - a) - 60, t - 1, t + 60, t + abs(b - a) // 2, t + abs(b - a) + 300):
                         case.meta['probes'].append((pid, ref * NS_S))
     return case
 
@@ -502,6 +541,10 @@ class ProdProp:
         # bounded search that ends in InfiniteLoopDetectedError: inconclusive, not a difference
         if a == 'err DIVERGED' and b == 'err InfiniteLoopDetectedError':
             return True
+        # the exported zone tables end with 2037 (the 64-bit data of the zone files; later years are a POSIX rule the
+        # model does not have): an answer of the code beyond that horizon cannot be judged by the model
+        if a.startswith('ok') and int(a.split()[1]) > 2_140_000_000 * NS_S and a != b:
+            return True
         return a == b
 
     def cases(self, run: Run):
@@ -514,6 +557,11 @@ class ProdProp:
             nz = len(zones()) if run.tier == 'thorough' else len(SHAPE_ZONES)
             for i in range(nz):
                 yield -(1 + i + (run.seed % 1000) * 1000)      # sweep cases: negative seeds select the zone
+        if self.pid == 'C13':
+            from tz import SHAPE_ZONES, zones
+            nz = len(zones()) if run.tier == 'thorough' else len(SHAPE_ZONES)
+            for i in range(nz):
+                yield -(1 + i + (run.seed % 1000) * 1000)
         for i in range(n):
             yield base + i
 
@@ -522,6 +570,10 @@ class ProdProp:
             from tz import SHAPE_ZONES, zones
             zl = zones() if tier == 'thorough' else SHAPE_ZONES
             case = make_sweep_case(zl[((-seed - 1) % 1000) % len(zl)], -seed)
+        elif self.pid == 'C13' and seed < 0:
+            from tz import SHAPE_ZONES, zones
+            zl = zones() if tier == 'thorough' else SHAPE_ZONES
+            case = make_bound_sweep_case(zl[((-seed - 1) % 1000) % len(zl)], -seed)
         else:
             case = make_case(self.pid, seed, tier)
         chain = chain_plan(case.meta['refs'], case.meta['steps'])
@@ -556,13 +608,66 @@ class ProdProp:
         with ProcessPoolExecutor(max_workers=workers) as ex:
             for case in ex.map(_build_worker, [(self.pid, s, run.tier) for s in seeds], chunksize=2):
                 self.check_case(run, case)
+            if self.pid == 'C16':
+                # interval amounts at and below the resolution of the library (1 ns): rejected or searched in bounded time
+                for x, built, res in ex.submit(_tiny_interval_probe).result():
+                    run.evaluations += 1
+                    if res == 'err DIVERGED':
+                        run.findings.append(Finding(
+                            'oracle', f'interval({x!r} s) is accepted ({built}) and get_next does not return within 5 s',
+                            {'component': 'prod', 'tiny_interval': x}))
 
     def replay(self, run: Run, obj: dict) -> None:
+        if 'tiny_interval' in obj:
+            for x, built, res in _tiny_interval_probe():
+                if res == 'err DIVERGED':
+                    run.findings.append(Finding(
+                        'oracle', f'interval({x!r} s) is accepted ({built}) and get_next does not return within 5 s',
+                        {'component': 'prod', 'tiny_interval': x}))
+            return
         case = ProdCase(obj['tz'], obj['seed'])
         case.specs = {int(k): spec_from_json(v) for k, v in obj['specs'].items()}
         case.queries = [tuple(q) for q in obj['queries']]
         replay_case_impl(case)
         self.check_case(run, case)
+
+
+def _tiny_interval_probe():
+    """interval triggers whose amount is a float at / below one nanosecond, built through the public builder"""
+    import signal
+    from tz import set_tz
+    set_tz('UTC')
+    from common import use_repo_sources
+    use_repo_sources()
+    from eascheduler.builder import TriggerBuilder
+    from vclock import instant_of_ns
+
+    class _Div(BaseException):
+        pass
+
+    def _alarm(*_a):
+        raise _Div()
+    out = []
+    for x in (1e-10, 4e-10, 5e-10, 1e-9, 2.5e-9):
+        try:
+            trig = TriggerBuilder.interval(None, x)
+        except Exception as e:  # noqa: BLE001
+            out.append((x, f'rejected {type(e).__name__}', ''))
+            continue
+        old = signal.signal(signal.SIGALRM, _alarm)
+        signal.setitimer(signal.ITIMER_REAL, 5.0)
+        try:
+            r = trig._producer.get_next(instant_of_ns(1_700_000_000 * NS_S))
+            res = 'ok'
+        except _Div:
+            res = 'err DIVERGED'
+        except Exception as e:  # noqa: BLE001
+            res = f'err {type(e).__name__}'
+        finally:
+            signal.setitimer(signal.ITIMER_REAL, 0)
+            signal.signal(signal.SIGALRM, old)
+        out.append((x, 'built', res))
+    return out
 
 
 def _build_worker(args):
